@@ -539,11 +539,7 @@ dbus_bool_t _dbus_credentials_add_from_user (DBusCredentials *credentials, const
 {
   PRE (CRED_LIVE (credentials), "_dbus_credentials_add_from_user"); STR_PRE (username, "_dbus_credentials_add_from_user");
   g_add_from_user_calls++; g_userdb_ok = 0;
-#ifdef VERIF_NO_USERDB_OOM
-  if (nondet_bool ()) { model_set_error (error, 0); return FALSE; }
-#else
   if (nondet_bool ()) { model_set_error (error, nondet_bool ()); return FALSE; }
-#endif
   dbus_uid_t u = nondet_ulong (); __CPROVER_assume (u != DBUS_UID_UNSET);
   credentials->unix_uid = u; g_userdb_ok = 1; g_userdb_uid = u;
   return TRUE;
